@@ -58,6 +58,12 @@ def gen_cases(tier, seed):
         mode, keys = configs[j % len(configs)]
         cases.append({"kind": "sched", "backend": ("mem", "sqlite")[j % 2], "mode": mode, "keys": list(keys), "reroute": bool((j // 2) % 2), "pollers": 2 + (j % 3 == 2),
                       "strategy": "pct", "count": sched_n // chunks, "seed": seed * 1013 + j, "budget": 240 if thorough else 35})
+    # recorded witness schedule of the known check-then-act finding (replayed so that every run shows it while it exists)
+    import json as _json, os as _os
+    wpath = _os.path.join(_os.path.dirname(__file__), "c06_race_choices_mem.json")
+    if _os.path.exists(wpath):
+        cases.append({"kind": "sched", "backend": "mem", "mode": "ARGUMENTS", "keys": [], "reroute": True, "pollers": 2, "strategy": "replay",
+                      "choices": _json.load(open(wpath)), "fixed": "equal2", "seed": 5})
     for backend in ("mem", "sqlite"):
         cases.append({"kind": "sched", "backend": backend, "mode": "ARGUMENTS", "keys": [], "reroute": True, "pollers": 2, "strategy": "dfs",
                       "p": 2 if thorough else 1, "seed": seed, "budget": 400 if thorough else 35, "fixed": "equal2"})
@@ -158,9 +164,26 @@ class World:
         for k, invs in per.items():
             if len(invs) > 1:
                 paths = sorted(self.inv_path[i] for i in invs)
-                self.V.append({"sig": f"two-running-same-key:{self.mode}:paths={'+'.join(paths)}",
+                mech = ""
+                if self.sc is not None and len(invs) == 2:
+                    mech = ":" + self.classify_overlap(invs[0], invs[1])
+                self.V.append({"sig": f"two-running-same-key:{self.mode}:paths={'+'.join(paths)}{mech}",
                                "what": f"{len(invs)} invocations with key {k} are RUNNING at once ({where}); submitted through {paths}",
                                "witness": {"key": list(map(str, k)), "invocations": invs, "paths": paths, "where": where, "backend": self.backend, "reroute": self.reroute}})
+
+    def classify_overlap(self, x, y):
+        """check-then-act: neither invocation was already RUNNING while the other one's two checks (candidate before the PENDING
+        request, authorisation before the RUNNING request) were made; holder-visible: one was RUNNING during both checks of the other."""
+        ev = [e for e in self.log.events if e["kind"] == "set_status" and e["ok"] and e["inv"] in (x, y)]
+
+        def last(inv, req, field):
+            c = [e[field] for e in ev if e["inv"] == inv and e["req"] == req]
+            return c[-1] if c else None
+        for a, b in ((x, y), (y, x)):
+            a_run_ret, b_pend_call, b_run_call = last(a, "RUNNING", "ret"), last(b, "PENDING", "call"), last(b, "RUNNING", "call")
+            if a_run_ret is not None and b_pend_call is not None and b_run_call is not None and a_run_ret <= b_pend_call:
+                return "holder-visible-to-checks"
+        return "check-then-act"
 
     def body_hook(self, ev, inv, extra):
         from pynenc.exceptions import RetryError
@@ -407,7 +430,7 @@ def run_sched(case, V, hooks, distinct):
     try:
         res = S.explore(scenario, strategy=case["strategy"], max_preemptions=case.get("p", 1), n=case.get("count", 30), seed=case["seed"],
                         sql=(backend == "sqlite"), lines=c02.line_specs() if backend == "mem" else None, shims=shims, max_steps=12000,
-                        time_budget=case.get("budget"))
+                        time_budget=case.get("budget"), replay_choices=case.get("choices"))
     finally:
         td.close()
     hooks.update(totals)
